@@ -97,29 +97,63 @@ const allocConstCap = 1 << 20 // a constant bound up to 1 Mi elements counts as 
 // memory: len/cap of a value, Len() of a bytes/strings reader or buffer, or a
 // value whose own range is constant-bounded.
 func isInputLen(v ssa.Value, ptrBits int) bool {
+	return isInputLenD(v, ptrBits, 0)
+}
+
+func isInputLenD(v ssa.Value, ptrBits, d int) bool {
+	if d > 6 {
+		return false
+	}
 	v = stripChangeOnly(v)
 	switch x := v.(type) {
 	case *ssa.Call:
-		if bi, ok := x.Call.Value.(*ssa.Builtin); ok && (bi.Name() == "len" || bi.Name() == "cap") {
+		if bi, ok := x.Call.Value.(*ssa.Builtin); ok && (bi.Name() == "len" || bi.Name() == "cap" || bi.Name() == "copy") {
 			return true
 		}
-		if f := x.Call.StaticCallee(); f != nil && f.Name() == "Len" && f.Signature.Recv() != nil {
-			if n := namedOf(f.Signature.Recv().Type()); n != nil && n.Obj().Pkg() != nil {
-				p := n.Obj().Pkg().Path()
-				if p == "bytes" || p == "strings" {
+		name := ""
+		if f := x.Call.StaticCallee(); f != nil {
+			name = f.Name()
+		} else if x.Call.IsInvoke() {
+			name = x.Call.Method.Name()
+		}
+		// the size of something already held in memory
+		switch name {
+		case "Len", "RuneCount", "RuneCountInString", "Cap":
+			return true
+		}
+	case *ssa.Convert:
+		return isInputLenD(x.X, ptrBits, d+1)
+	case *ssa.BinOp:
+		switch x.Op {
+		case token.QUO, token.SUB, token.SHR, token.ADD, token.MUL, token.SHL:
+			if k, ok := constInt64(x.Y); ok && k >= 0 && k <= 64 {
+				return isInputLenD(x.X, ptrBits, d+1)
+			}
+			if k, ok := constInt64(x.X); ok && k >= 0 && k <= 64 && (x.Op == token.ADD || x.Op == token.MUL) {
+				return isInputLenD(x.Y, ptrBits, d+1)
+			}
+			if x.Op == token.ADD || x.Op == token.SUB {
+				// sum / difference of two in-memory sizes
+				if x.Op == token.ADD && isInputLenD(x.X, ptrBits, d+1) && isInputLenD(x.Y, ptrBits, d+1) {
 					return true
+				}
+				if x.Op == token.SUB && isInputLenD(x.X, ptrBits, d+1) {
+					if r := valueRange(x.Y, ptrBits, 0); r.lo >= 0 {
+						return true
+					}
+					if p, ok := x.Y.(*ssa.Parameter); ok && paramAlwaysNonNegConst(p) {
+						return true
+					}
 				}
 			}
 		}
-	case *ssa.Convert:
-		return isInputLen(x.X, ptrBits)
-	case *ssa.BinOp:
-		switch x.Op {
-		case token.QUO, token.SUB, token.SHR:
-			if _, ok := x.Y.(*ssa.Const); ok {
-				return isInputLen(x.X, ptrBits)
+	case *ssa.Phi:
+		for _, e := range x.Edges {
+			if e != v && !isInputLenD(e, ptrBits, d+1) {
+				return false
 			}
 		}
+		return len(x.Edges) > 0
 	}
 	if r := valueRange(v, ptrBits, 0); r.hi <= allocConstCap {
 		return true
@@ -621,4 +655,38 @@ func isRangeKeyOf(key, m ssa.Value) bool {
 	}
 	rg, ok := nx.Iter.(*ssa.Range)
 	return ok && exprEq(rg.X, m)
+}
+
+
+// gL is the program currently analysed (set by run); used by summaries that
+// need the callers of a function.
+var gL *Loaded
+
+// paramAlwaysNonNegConst: p belongs to an unexported function whose address is
+// never taken and every static caller passes a non-negative constant for it.
+func paramAlwaysNonNegConst(p *ssa.Parameter) bool {
+	fn := p.Parent()
+	if gL == nil || fn == nil || fn.Object() == nil || fn.Object().Exported() || gL.AddressTaken(fn) {
+		return false
+	}
+	idx := -1
+	for i, q := range fn.Params {
+		if q == p {
+			idx = i
+		}
+	}
+	calls := gL.StaticCallers(fn)
+	if idx < 0 || len(calls) == 0 {
+		return false
+	}
+	for _, ci := range calls {
+		a := ci.Common().Args
+		if idx >= len(a) {
+			return false
+		}
+		if k, ok := constInt64(a[idx]); !ok || k < 0 {
+			return false
+		}
+	}
+	return true
 }
